@@ -302,6 +302,8 @@ func init() {
 			if e1 == nil && e2 == nil {
 				return doSameParse(a, b), true
 			}
+		case f[0] == "TY" && len(f) == 3:
+			return doTyped(f[1], f[2]), true
 		case f[0] == "Y" && len(f) == 5:
 			return doSlice(f[1], f[2], f[3], f[4]), true
 		case f[0] == "X" && len(f) == 4:
